@@ -57,6 +57,9 @@ type PodEvictor struct {
 	totalCount                 int
 	nodepodCount               nodePodEvictedCount
 	namespacePodCount          namespacePodEvictCount
+	// evictions admitted by reserve whose API call has not returned yet
+	inflightNodePodCount      nodePodEvictedCount
+	inflightNamespacePodCount namespacePodEvictCount
 }
 
 func NewPodEvictor(
@@ -76,6 +79,8 @@ func NewPodEvictor(
 		maxPodsToEvictPerNamespace: maxPodsToEvictPerNamespace,
 		nodepodCount:               make(nodePodEvictedCount),
 		namespacePodCount:          make(namespacePodEvictCount),
+		inflightNodePodCount:       make(nodePodEvictedCount),
+		inflightNamespacePodCount:  make(namespacePodEvictCount),
 	}
 }
 
@@ -114,42 +119,73 @@ func (pe *PodEvictor) NamespaceLimitExceeded(namespace string) bool {
 	return false
 }
 
+// reserve admits the pod against the limits and holds its slot until settle or release, so that
+// concurrent evictions cannot pass the check together. It returns which limit refused the pod, if any.
+func (pe *PodEvictor) reserve(pod *corev1.Pod) (nodeLimitReached, namespaceLimitReached bool) {
+	pe.lock.Lock()
+	defer pe.lock.Unlock()
+	nodeName := pod.Spec.NodeName
+	if pe.maxPodsToEvictPerNode != nil && pe.nodepodCount[nodeName]+pe.inflightNodePodCount[nodeName] >= *pe.maxPodsToEvictPerNode {
+		return true, false
+	}
+	if pe.maxPodsToEvictPerNamespace != nil && pe.namespacePodCount[pod.Namespace]+pe.inflightNamespacePodCount[pod.Namespace] >= *pe.maxPodsToEvictPerNamespace {
+		return false, true
+	}
+	pe.inflightNodePodCount[nodeName]++
+	pe.inflightNamespacePodCount[pod.Namespace]++
+	return false, false
+}
+
+// release gives back the slot held by reserve; with evicted set the eviction is counted.
+func (pe *PodEvictor) release(pod *corev1.Pod, evicted bool) {
+	pe.lock.Lock()
+	defer pe.lock.Unlock()
+	if pe.inflightNodePodCount[pod.Spec.NodeName] > 0 {
+		pe.inflightNodePodCount[pod.Spec.NodeName]--
+	}
+	if pe.inflightNamespacePodCount[pod.Namespace] > 0 {
+		pe.inflightNamespacePodCount[pod.Namespace]--
+	}
+	if evicted {
+		if pod.Spec.NodeName != "" {
+			pe.nodepodCount[pod.Spec.NodeName]++
+		}
+		pe.namespacePodCount[pod.Namespace]++
+		pe.totalCount++
+	}
+}
+
 func (pe *PodEvictor) Evict(ctx context.Context, pod *corev1.Pod, opts framework.EvictOptions) bool {
 	framework.FillEvictOptionsFromContext(ctx, &opts)
 
 	nodeName := pod.Spec.NodeName
-	if pe.NodeLimitExceeded(nodeName) {
+	nodeLimitReached, namespaceLimitReached := pe.reserve(pod)
+	if nodeLimitReached {
 		metrics.PodsEvicted.With(map[string]string{"result": "maximum number of pods per node reached", "strategy": opts.PluginName, "namespace": pod.Namespace, "node": nodeName}).Inc()
 		klog.ErrorS(fmt.Errorf("maximum number of evicted pods per node reached"), "Error evicting pod", "limit", *pe.maxPodsToEvictPerNode, "node", nodeName)
 		return false
 	}
 
-	if pe.NamespaceLimitExceeded(pod.Namespace) {
+	if namespaceLimitReached {
 		metrics.PodsEvicted.With(map[string]string{"result": "maximum number of pods per namespace reached", "strategy": opts.PluginName, "namespace": pod.Namespace, "node": nodeName}).Inc()
 		klog.ErrorS(fmt.Errorf("maximum number of evicted pods per namespace reached"), "Error evicting pod", "limit", *pe.maxPodsToEvictPerNamespace, "namespace", pod.Namespace)
 		return false
 	}
 
 	if pe.dryRun {
+		pe.release(pod, false)
 		klog.V(1).InfoS("Evicted pod in dry run mode", "pod", klog.KObj(pod), "reason", opts.Reason, "strategy", opts.PluginName, "node", nodeName)
 	} else {
 		err := EvictPod(ctx, pe.client, pod, pe.policyGroupVersion, opts.DeleteOptions)
 		if err != nil {
+			pe.release(pod, false)
 			// err is used only for logging purposes
 			klog.ErrorS(err, "Error evicting pod", "pod", klog.KObj(pod), "reason", opts.Reason)
 			metrics.PodsEvicted.With(map[string]string{"result": "error", "strategy": opts.PluginName, "namespace": pod.Namespace, "node": nodeName}).Inc()
 			return false
 		}
 
-		func() {
-			pe.lock.Lock()
-			defer pe.lock.Unlock()
-			if pod.Spec.NodeName != "" {
-				pe.nodepodCount[pod.Spec.NodeName]++
-			}
-			pe.namespacePodCount[pod.Namespace]++
-			pe.totalCount++
-		}()
+		pe.release(pod, true)
 
 		metrics.PodsEvicted.With(map[string]string{"result": "success", "strategy": opts.PluginName, "namespace": pod.Namespace, "node": nodeName}).Inc()
 
